@@ -3,6 +3,7 @@ package parse
 import (
 	"errors"
 	"strconv"
+	"unicode/utf16"
 	"unicode/utf8"
 )
 
@@ -73,6 +74,18 @@ func unquoteString(s string) (string, error) {
 				}
 				r = rune(num)
 				i += 4
+				// two escapes that are the halves of a surrogate pair stand for one
+				// character outside the basic plane.
+				if utf16.IsSurrogate(r) && i+6 <= len(s) && s[i] == '\\' && s[i+1] == 'u' {
+					if low, err := strconv.ParseInt(s[i+2:i+6], 16, 0); err == nil {
+						if pair := utf16.DecodeRune(r, rune(low)); pair != utf8.RuneError {
+							r = pair
+							i += 6
+						}
+					}
+				}
+			} else if r == '"' {
+				// (a double quote may be escaped too; it need not be.)
 			} else {
 				replacement, ok := unescapes[r]
 				if !ok {
